@@ -50,8 +50,7 @@ class M(Model):
         out = []
         if not np.array_equal(np.asarray(obs.cube), np.asarray(s.cube)):
             out.append(("cube differs from the state", ""))
-        if np.asarray(obs.cube).dtype != np.asarray(s.cube).dtype:
-            out.append(("cube dtype differs from the state", f"{np.asarray(obs.cube).dtype}"))
+        # audit: dtype equality of observation and state is spec conformance (C01), not C12 - removed
         if int(obs.step_count) != int(s.step_count):
             out.append(("step_count differs from the state", f"{int(obs.step_count)} vs {int(s.step_count)}"))
         return out
